@@ -43,6 +43,10 @@ var c09Forms = []c09Form{
 	{"was-annotation", func(k, a string) string { return "// was: // @" + k + a + " (removed)" }},
 	{"quoted", func(k, a string) string { return "// \"// @" + k + a + "\" is the syntax" }},
 	{"after-colon", func(k, a string) string { return "// TODO: @" + k + a }},
+	// the keyword as a quoted word or a code span at the start of the line
+	{"double-quoted-keyword", func(k, a string) string { return "// \"@" + k + "\"" + a + " is deliberately not applied here" }},
+	{"backquoted-keyword", func(k, a string) string { return "// `@" + k + "`" + a + " would be too strict" }},
+	{"single-quoted-keyword", func(k, a string) string { return "// '@" + k + "'" + a }},
 	// the keyword in another letter case at the start, and the lowercase keyword mentioned later in the same line
 	{"capitalised-then-mention", func(k, a string) string {
 		return "// @" + strings.ToUpper(k[:1]) + k[1:] + a + " is how the wiki spells it, the tool only knows @" + k + a
